@@ -6,7 +6,13 @@ See go/overlay/internal/verifharness/c09/main.go for the producer of these lines
   x-begin <s|r> <ttl> <allow|deny|extend-cache|async-cache> → ok          (new resolver: server- or remote-backed)
   x-put <secret> <accessor> <exp|~> <grants> <link>         → ok          (state store upsert, server mode)
   x-del <secret>                                            → ok          (token deleted)
+  x-env <acls 0|1> <tokenstore 0|1> <recovery> <srvmgmt>    → ok          (surroundings ResolveToken consults; default 1 0 "" "")
+  x-exp <exp|~> <asOf>                                      → <HasExpirationTime> <IsExpired(asOf)>   (no resolver involved)
+  x-filt <now> <secret> <n> <round>*n <Type> <args…>        → ok <filtered response> | panic | err <root-denied|notfound|denied>
+        (filterACL: resolve the token, filter the subject with the authorizer; token authorizers follow the
+         harness convention `tokenAuthz` below)
   x-res <now> <t|p|r> <secret> <round>*                     → t: granted <accessor> <grants> | notfound | down <0|1> | denied
+                                                                 | manage-all | root-denied | recovery | server-mgmt
                                                               p,r: ok <accessor> | notfound | remote | denied
         (t = ResolveToken / ResolveTokenAndDefaultMeta, p / r = resolveTokenToIdentityAndPolicies / …AndRoles;
          remote mode: one <round> per possible loop round, `rpc;…;linkanswer`; server mode: none)
@@ -25,6 +31,7 @@ occur in the table, otherwise the line is rejected (`bad-op`) rather than defaul
 -/
 import CV.Filter
 import CV.FilterExpiry
+import CV.FilterACL
 namespace CV.Engine.C09
 open CV CV.Filter
 
@@ -285,11 +292,36 @@ structure XState where
   cfg    : Cfg
   store  : List Token
   cache  : Cache
+  env    : Env := ⟨true, false, "", ""⟩
 
 open CV.Filter.Expiry
 
 def anonAccessor : String := "00000000-0000-0000-0000-000000000002"
-def anonSecret : String := "anonymous"
+def anonSecret : String := anonymousSecret
+
+/-- What the tokens of the harness grant (its convention, see expiry.go): link 1 = one policy with
+    `service "<g>" { policy = "write" }` per grant and nothing else; link 0 / 2 = service identities (on
+    the token / on its role), whose synthetic policy adds `service_prefix "" read` and `node_prefix "" read`
+    (a token without grants has no policy at all).
+    Default policy deny, no `acl` rule. -/
+def tokenAuthz (t : Token) : Authz :=
+  { nodeRead := fun _ => t.link != 1 && !t.grants.isEmpty,
+    serviceRead := fun s => if t.link == 1 then t.grants.contains s else !t.grants.isEmpty,
+    sessionRead := fun _ => false, keyRead := fun _ => false, intentionRead := fun _ => false,
+    queryRead := fun _ => false, aclRead := false, aclWrite := false }
+
+def encResolved : Resolved → String
+  | .aclsDisabled => "manage-all"
+  | .rootDenied => "root-denied"
+  | .agentRecovery => "recovery"
+  | .serverManagement => "server-mgmt"
+  | .token o => encOutcome2' o
+where encOutcome2' : Outcome2 → String
+  | .granted t => s!"granted {encS t.accessor} {joinL "," (t.grants.map encS)}"
+  | .notFound => "notfound"
+  | .down b => s!"down {encBool b}"
+  | .denied => "denied"
+  | .noScript => "bad-op"
 
 def decDown : String → Option Down
   | "allow" => some .allow | "deny" => some .deny
@@ -365,7 +397,7 @@ def step (st : State) (toks : List String) : State × String :=
     | _, _, _, _ => (st, "bad-op")
   | ["x-begin", mode, ttl, down] =>
     match decBool mode, ttl.toNat?, decDown down with
-    | some m, some ttl, some d => (some ⟨m, ⟨ttl, d⟩, [], []⟩, "ok")
+    | some m, some ttl, some d => (some { server := m, cfg := ⟨ttl, d⟩, store := [], cache := [] }, "ok")
     | _, _, _ => (st, "bad-op")
   | ["x-put", s, a, e, g, l] =>
     match st, decToken s a e g l with
@@ -384,12 +416,40 @@ def step (st : State) (toks : List String) : State × String :=
         let script := if x.server then dummyScript else rounds
         match ep with
         | .token =>
-          let (c, o) := resolveTokenAll x.cfg store x.cache script s now
-          (some { x with cache := c }, encOutcome2 o)
+          let (c, o) := resolveTokenEntry x.env x.cfg store x.cache script s now
+          (some { x with cache := c }, encResolved o)
         | ep =>
           let (c, o) := resolveLoop x.cfg ep store maxRetries x.cache script s now
           (some { x with cache := c }, encLoopRes o)
     | _, _, _, _, _ => (st, "bad-op")
+  | ["x-env", a, ts, rec, mg] =>
+    match st, decBool a, decBool ts, decS rec, decS mg with
+    | some x, some a, some ts, some rec, some mg => (some { x with env := ⟨a, ts, rec, mg⟩ }, "ok")
+    | _, _, _, _, _ => (st, "bad-op")
+  | ["x-exp", e, asOf] =>
+    match decExp e, asOf.toNat? with
+    | some e, some asOf =>
+      let t : Token := ⟨"", "", e, [], 0⟩
+      (st, s!"{encBool t.hasExpirationTime} {encBool (t.isExpired asOf)}")
+    | _, _ => (st, "bad-op")
+  | "x-filt" :: now :: s :: n :: rest =>
+    match st, now.toNat?, decS s, n.toNat? with
+    | some x, some now, some s, some n =>
+      match (rest.take n).mapM decRound, rest.drop n with
+      | some rounds, ty :: args =>
+        if rounds.length != n || (x.server && n != 0) then (st, "bad-op")
+        else match parseResp ty args with
+          | none => (st, "bad-op")
+          | some subj =>
+            let store := if x.server then some x.store else none
+            let script := if x.server then dummyScript else rounds
+            match filterACL tokenAuthz x.env x.cfg store x.cache script s now subj with
+            | (c, .ok out) => (some { x with cache := c }, s!"ok {encResp out}")
+            | (c, .panic) => (some { x with cache := c }, "panic")
+            | (c, .err (.token .noScript)) => (some { x with cache := c }, "bad-op")
+            | (c, .err r) => (some { x with cache := c }, s!"err {encResolved r}")
+      | _, _ => (st, "bad-op")
+    | _, _, _, _ => (st, "bad-op")
   | ["x-read", now, s] =>
     match st, now.toNat?, decS s with
     | some x, some now, some s =>
